@@ -59,6 +59,8 @@ func c05Types(tier string) []c05type {
 var c05Shapes = [][]string{
 	{"/{x}"}, {"/a/{x}"}, {"/{x}/a"}, {"/{x}/{y}"}, {"/a/{x}/b/{y}"}, {"/{x}/"}, {"/a/{x}/"}, {"/{x}/a/{y}"}, {"/a/b/{x}"}, {"/{x}/{y}/a"},
 	{"/{x}", "/a"}, {"/a/{x}", "/a/b"}, {"/a/{x}", "/{y}/b"}, {"/{x}/{y}", "/a/{x}"}, {"/{x}/a", "/{x}/b/{y}"},
+	// constant segments whose byte length, rune count and escaped length all differ
+	{"/é/{x}"}, {"/商店/{x}/ü/{y}"}, {"/a\"b/{x}"},
 }
 
 func C05(run *report.Run) {
@@ -99,8 +101,11 @@ func C05(run *report.Run) {
 					assign[i] = assign[0]
 				}
 			}
-			for _, declOrder := range []string{"template", "reversed-op"} {
+			for _, declOrder := range []string{"template", "reversed-op", "override"} {
 				if declOrder == "reversed-op" && (n < 2 || a%3 != 0) {
+					continue
+				}
+				if declOrder == "override" && a%2 != 0 {
 					continue
 				}
 				for _, bn := range bases {
@@ -118,6 +123,11 @@ func C05(run *report.Run) {
 						pi := &spec.PathItem{Template: t.Path}
 						op := &spec.Op{Method: "GET", Responses: []*spec.Response{{Status: "default", Desc: "d"}}}
 						varTypes[t.Path] = map[string]drv.PType{}
+						for _, sg := range refmodel.Segs(t.Path) {
+							if !refmodel.IsVar(sg) {
+								segAlpha[sg] = true
+							}
+						}
 						var ps []*spec.Param
 						for _, s := range refmodel.Segs(t.Path) {
 							if refmodel.IsVar(s) {
@@ -134,12 +144,19 @@ func C05(run *report.Run) {
 								}
 							}
 						}
-						if declOrder == "reversed-op" {
+						switch declOrder {
+						case "reversed-op":
 							for i, j := 0, len(ps)-1; i < j; i, j = i+1, j-1 {
 								ps[i], ps[j] = ps[j], ps[i]
 							}
 							op.Params = ps
-						} else {
+						case "override":
+							// the path item declares every variable as a boolean; the operation re-declares them
+							for _, p := range ps {
+								pi.Params = append(pi.Params, &spec.Param{Name: p.Name, In: "path", Required: true, Schema: spec.T("boolean")})
+							}
+							op.Params = ps
+						default:
 							pi.Params = ps
 						}
 						pi.Ops = []*spec.Op{op}
